@@ -39,13 +39,47 @@ THEOREMS = ["JanetModel.Props.C09." + t for t in (
     "presentation_exists", "presentation_exists_top", "presentation_unique", "presentation_canonical", "presentation_idempotent", "presentation_roundtrip",   # every graph has exactly one presentation in reference-number order
     "asm_disasm_def", "asm_slotcount_covers", "asm_slotcount_le", "asm_slotcount_eq", "asm_disasm_def_tight",   # asm . disasm at funcdef level: slot count, janet_verify
     "asm_disasm_instr", "asm_disasm_bytecode",                                           # asm . disasm on instruction words / bytecode arrays
+    "fiber_flags_no_wire_bits",                                                          # unmarshalled fiber flags carry no image-only bit
     "abstract_hook_roundtrip", "int64_hooks_paired", "int64_box_roundtrip", "channel_hooks_paired", "channel_roundtrip", "peg_hooks_paired", "peg_roundtrip",  # abstract hook protocol
 )]
 
 CODE_OBLIGATIONS = ["JanetModel.Marsh.CodeObligations." + t for t in (
     "code_depths_match_model", "unmarshal_never_deeper", "def_field_order", "flag_bits",   # Code.lean vs the current marsh.c
     "hook_calls_match_model",                                                              # Abstract.lean vs inttypes.c / ev.c hooks
+    "fiber_wire_bits_stripped", "marshal_leaves_frames_unchanged",                         # image-only fiber / frame bits never live in memory
 )]
+
+def _name_obligation(msg):
+    """`module does not build; first error: …CodeObligations.lean:LINE:…` -> prefixed with the name of the theorem at that line"""
+    m = re.search(r"CodeObligations\.lean:(\d+):", msg)
+    if not m:
+        return msg
+    name = None
+    try:
+        for i, l in enumerate(open(os.path.join(VERIF, "lean/JanetModel/Marsh/CodeObligations.lean")), 1):
+            mm = re.match(r"theorem\s+(\w+)", l)
+            if mm and i <= int(m.group(1)):
+                name = mm.group(1)
+    except OSError:
+        pass
+    return ("obligation CodeObligations.%s is false on this tree: " % name if name else "") + msg
+
+
+def run_janet_source(janet, source):
+    """run a stand-alone janet scenario; returns (last output line or a description of the crash, rc)"""
+    import tempfile
+    fd, path = tempfile.mkstemp(prefix="c09-corpus-", suffix=".janet", dir="/var/tmp")
+    try:
+        with os.fdopen(fd, "w") as f:
+            f.write(source)
+        rc, out, err = run_cmd([janet, path], timeout=120, env=ENV)
+    finally:
+        os.unlink(path)
+    lines = out.decode(errors="replace").strip().splitlines()
+    if rc != 0 or not lines:
+        return "FAIL crashed rc=%r: %s" % (rc, err.decode(errors="replace")[-300:]), rc
+    return lines[-1], rc
+
 
 ENV = dict(os.environ, ASAN_OPTIONS="detect_leaks=0:abort_on_error=0", UBSAN_OPTIONS="print_stacktrace=1")
 H = os.path.join(VERIF, "harness/C09")
@@ -532,7 +566,7 @@ def run(ctx):
         return ctx.finish("proof", {"evaluations": 0, "distinct_nontrivial": 0})
     # (B,C) kernel check + audit
     broken += ctx.obligations("JanetModel.Props.C09", THEOREMS)
-    code_broken = ctx.obligations("JanetModel.Marsh.CodeObligations", CODE_OBLIGATIONS)
+    code_broken = [_name_obligation(b) for b in ctx.obligations("JanetModel.Marsh.CodeObligations", CODE_OBLIGATIONS)]
     broken += code_broken
     if not quick:
         ok, log = ctx.leanchecker("JanetModel.Props.C09")
@@ -937,6 +971,16 @@ def run(ctx):
         stats["code_graphs"] = cgstats
         ctx.say("code graphs: %r" % cgstats)
 
+        # corpus: stand-alone janet scenarios (minimised past failures); each prints a last line starting with "ok" or "FAIL"
+        cdir = os.path.join(VERIF, "corpus/C09")
+        for fn in sorted(os.listdir(cdir)) if os.path.isdir(cdir) else []:
+            sc = json.load(open(os.path.join(cdir, fn)))
+            if sc.get("kind") == "janet":
+                o, rc = run_janet_source(janet, sc["source"])
+                stats.setdefault("corpus", []).append({"scenario": fn, "result": o[:80]})
+                if not o.startswith("ok"):
+                    violations.append((sc["signature"], {"kind": "janet", "source": sc["source"], "signature": sc["signature"], "scenario": fn},
+                                       "%s: %s" % (fn, o[:300])))
         # (E2) code objects and abstract types, asm/disasm: behavioural comparison
         rounds = 10 if quick else 120
         cseeds = [ctx.rng.below(2**31 - 1) + 1 for _ in range(nproc)]
@@ -967,6 +1011,8 @@ def run(ctx):
                     mm = re.search(r"peg/compile '(.*)\)\) failed: \"invalid peg bytecode\"", verdict)
                     if mm and re.search(r"\((int|int-be|uint-be) ", mm.group(1)):
                         sig = "peg-readint-unmarshal-rejected"
+                    if "original-remarshalled: marshal number" in verdict and " raised: " in verdict:
+                        sig = "fiber-remarshal-malformed"      # marshalling changed the fiber (stale JANET_STACKFRAME_HASENV)
                     if sig not in seen_sig:
                         seen_sig.add(sig)
                         violations.append((sig, {"kind": "code", "code_seed": seed, "rounds": rounds, "scenario": name, "verdict": verdict},
@@ -1421,6 +1467,12 @@ def replay(ctx, path):
         for sig, rep, what in fd["violations"][:1]:
             ctx.violation(sig, rep, what="still fails: " + what)
         return ctx.finish("proof", {"evaluations": len(fd["rows"]), "distinct_nontrivial": len(fd["rows"]), "rule": "replay", "samples": [json.dumps(x) for x in fd["rows"][:3]]})
+    if kind == "janet":
+        o, rc = run_janet_source(janet, r["source"])
+        print("replayed:", o[:400])
+        if not o.startswith("ok"):
+            ctx.violation(r.get("signature", "code"), r, what="still fails: " + o[:300])
+        return ctx.finish("proof", {"evaluations": 1, "distinct_nontrivial": 1, "rule": "replay", "samples": [o[:200]]})
     if kind == "code":
         rc, out, err = run_cmd([janet, os.path.join(H, "code.janet"), str(r["code_seed"]), str(r["rounds"])], timeout=3000, env=ENV)
         for l in out.decode(errors="replace").splitlines():
